@@ -139,22 +139,37 @@ func (w *world) afterSend(c *xchain, in *intent, out *txOutcome) {
 	if !bytesEq(e.Packet, logged[0]) {
 		w.rec.Violate("C19", "reencode", "send_event_bytes", "EventSendPacket bytes differ from PacketSent log bytes")
 	}
-	p, err := DecodePacket(logged[0])
-	if err != nil {
-		w.rec.Violate("C19", "decode", "packet_sent_log", "cannot decode PacketSent bytes: %v", err)
-		return
-	}
-	if !bytesEq(p.Encode(), logged[0]) {
-		w.rec.Violate("C19", "reencode", "contract_bytes_not_canonical", "re-encoding the contract's packet bytes differs")
-	}
 	if si.dstIdx < 0 {
 		w.rec.Violate("C04", "send_to_invalid_dst", si.expectFail, "send to %q succeeded", si.dstName)
 		return
 	}
-	// sequencing
+	pk := w.recordSend(c, logged[0], out, si.dstName)
+	if pk == nil {
+		return
+	}
+	pk.dst, pk.sender, pk.tok, pk.amount, pk.receiver, pk.feeTok, pk.feeAmt = si.dstIdx, si.user.Eth, si.tok, si.amount, si.receiver, si.feeTok, si.feeAmt
+	pk.call, pk.callback, pk.agent = si.call, si.callback, si
+	w.m.pkts[pktKey(c.idx, si.dstIdx, pk.seq)] = pk
+	w.wire = append(w.wire, &wireMsg{kind: "recv", from: c.idx, to: si.dstIdx, packet: logged[0], height: c.CurHdr.Height, key: pk.p.Triple(), dropped: map[int]bool{}})
+	w.rec.Probe("send.ok." + tokDesc(si.tok))
+	w.ledgerSend(c, pk, out)
+}
+
+// recordSend applies the C04/C19 checks to one emitted packet (top-level or nested send) and returns
+// its model record (not yet registered).
+func (w *world) recordSend(c *xchain, bz []byte, out *txOutcome, wantDst string) *pkt {
+	name := c.Cfg.Name
+	p, err := DecodePacket(bz)
+	if err != nil {
+		w.rec.Violate("C19", "decode", "packet_sent_log", "cannot decode emitted packet bytes: %v", err)
+		return nil
+	}
+	if !bytesEq(p.Encode(), bz) {
+		w.rec.Violate("C19", "reencode", "contract_bytes_not_canonical", "re-encoding the contract's packet bytes differs")
+	}
 	k := name + ">" + p.DstChain
 	w.m.sends[k]++
-	if p.SrcChain != name || p.DstChain != si.dstName || p.Sequence != w.m.sends[k] {
+	if p.SrcChain != name || p.DstChain != wantDst || p.Sequence != w.m.sends[k] {
 		w.rec.Violate("C04", "sequence", "gap_or_repeat", "send #%d on path %s carries %s", w.m.sends[k], k, p.Triple())
 	}
 	// exactly one new commitment = sha256(emitted bytes)
@@ -166,18 +181,11 @@ func (w *world) afterSend(c *xchain, in *intent, out *txOutcome) {
 			w.rec.Violate("C04", "commitment", "extra_commitment", "send wrote commitment %s, expected only %s", kk, wantKey)
 		}
 	}
-	if got := out.post.stores["xibc"][wantKey]; got != string(sha(logged[0])) {
+	if got := out.post.stores["xibc"][wantKey]; got != string(sha(bz)) {
 		w.rec.Violate("C04", "commitment", "hash_mismatch", "commitment under %s is not sha256 of the emitted packet", wantKey)
 	}
 	w.checkSeqCounters(c)
-	// model record
-	pk := &pkt{src: c.idx, dst: si.dstIdx, seq: p.Sequence, bytes: logged[0], p: p, sentHeight: c.CurHdr.Height,
-		sender: si.user.Eth, tok: si.tok, amount: si.amount, receiver: si.receiver, feeTok: si.feeTok, feeAmt: si.feeAmt,
-		call: si.call, callback: si.callback}
-	w.m.pkts[pktKey(c.idx, si.dstIdx, p.Sequence)] = pk
-	w.wire = append(w.wire, &wireMsg{kind: "recv", from: c.idx, to: si.dstIdx, packet: logged[0], height: c.CurHdr.Height, key: p.Triple(), dropped: map[int]bool{}})
-	w.rec.Probe("send.ok." + tokDesc(si.tok))
-	w.ledgerSend(c, pk, out)
+	return &pkt{src: c.idx, seq: p.Sequence, bytes: bz, p: p, sentHeight: c.CurHdr.Height}
 }
 
 // checkSeqCounters: chain-side and contract-side next-sequence counters agree with the model.
@@ -226,8 +234,8 @@ func (w *world) afterRecv(c *xchain, in *intent, out *txOutcome) {
 	}
 	w.rec.SetNontrivial()
 	// C06: signer must be a relayer registered for the source chain
-	if !w.isRelayer(in.signer.Acc.String()) {
-		w.rec.Violate("C06", "unauthorised_recv", "signer", "receive accepted from non-relayer %s", in.signer.Label)
+	if !c.registry[in.signer.Acc.String()][p.SrcChain] {
+		w.rec.Violate("C06", "unauthorised_recv", "signer_not_registered_for_chain", "receive from %s accepted from %s, who is not registered for that chain", p.SrcChain, in.signer.Label)
 	}
 	// C02: ground truth on the source chain at the proof height
 	src := w.chainByName(p.SrcChain)
@@ -278,7 +286,38 @@ func (w *world) afterRecv(c *xchain, in *intent, out *txOutcome) {
 	}
 	w.wire = append(w.wire, &wireMsg{kind: "ack", from: c.idx, to: src.idx, packet: pk.bytes, ack: acks[0].Ack, height: c.CurHdr.Height, key: triple, dropped: map[int]bool{}})
 	w.rec.Probe(fmt.Sprintf("recv.ok.code%d.call%d", minU(a.Code, 9), pk.call))
-	w.ledgerRecv(c, pk, a, out)
+	// nested sends triggered by the received packet (agent contract)
+	var nested []*pkt
+	for _, e := range out.events {
+		if e.Kind != "send" {
+			continue
+		}
+		if a.Code != 0 {
+			w.rec.Violate("C04", "failed_send_emitted", "nested", "receive of %s ended with error ack code %d but emitted EventSendPacket", triple, a.Code)
+			continue
+		}
+		if pk.call != callAgent || pk.agent == nil {
+			w.rec.Violate("C04", "unexpected_nested_send", "recv", "receive of %s emitted an unexpected nested send", triple)
+			continue
+		}
+		si := pk.agent
+		np := w.recordSend(c, e.Packet, out, si.agentDstName)
+		if np == nil {
+			continue
+		}
+		dt := w.dstTokenFor(pk.src, pk.dst, pk.tok)
+		np.dst, np.sender, np.tok, np.receiver = si.agentDst, agentAddr, dt, si.agentRecv
+		np.amount, np.feeTok, np.feeAmt = new(big.Int).Sub(pk.amount, si.agentFee), dt, si.agentFee
+		np.nested = true
+		w.m.pkts[pktKey(c.idx, np.dst, np.seq)] = np
+		w.wire = append(w.wire, &wireMsg{kind: "recv", from: c.idx, to: np.dst, packet: e.Packet, height: c.CurHdr.Height, key: np.p.Triple(), dropped: map[int]bool{}})
+		nested = append(nested, np)
+		w.rec.Probe("send.nested")
+	}
+	if a.Code == 0 && pk.call == callAgent && len(nested) != 1 {
+		w.rec.Violate("C04", "nested_send_lost", fmt.Sprintf("events=%d", len(nested)), "receive of %s executed the agent forward successfully but %d sends were recorded", triple, len(nested))
+	}
+	w.ledgerRecv(c, pk, a, out, nested)
 }
 
 func minU(a uint64, b uint64) uint64 {
@@ -320,6 +359,10 @@ func (w *world) checkProofGround(c, src *xchain, kind string, ph clienttypes.Hei
 	got := src.StoreGetAt("xibc", []byte(key), int64(ph.RevisionHeight)-1)
 	if !bytesEq(got, want) {
 		w.rec.Violate("C02", "not_committed", kind+":"+dupShape(rm), "%s accepted but %s does not hold the expected hash under %s at version %d", kind, src.Cfg.Name, key, ph.RevisionHeight-1)
+		return
+	}
+	if err := w.verifyProofIndependently(src, ph, rm.proof, key, want); err != nil {
+		w.rec.Violate("C02", "proof_does_not_verify", kind+":"+dupShape(rm), "%s accepted with a proof that an independent ICS-23 verifier rejects: %v", kind, err)
 	}
 }
 
@@ -400,8 +443,8 @@ func (w *world) afterUpdate(c *xchain, in *intent, out *txOutcome) {
 		w.rec.Violate("C07", "forged_header_accepted", u.forged, "update of client %s on %s with a %s header accepted", of.Cfg.Name, c.Cfg.Name, u.forged)
 		return
 	}
-	if !w.isRelayer(in.signer.Acc.String()) {
-		w.rec.Violate("C06", "unauthorised_update", "signer", "client update accepted from non-relayer %s", in.signer.Label)
+	if !c.registry[in.signer.Acc.String()][of.Cfg.Name] {
+		w.rec.Violate("C06", "unauthorised_update", "signer_not_registered_for_chain", "update of client %s accepted from %s, who is not registered for that chain", of.Cfg.Name, in.signer.Label)
 	}
 	if c.accepted[of.idx] == nil {
 		c.accepted[of.idx] = map[uint64]bool{}
@@ -426,6 +469,7 @@ func (w *world) afterBlock(c *xchain) {
 		}
 	}
 	w.m.acks[c.idx] = cur
+	w.afterBlockGov(c)
 	w.conservation(c, false)
 	w.rec.State(w.abstractState())
 }
